@@ -479,6 +479,29 @@ def check(facts, rep, tier, cfg):
                                 "to the tunnel if the client sent bytes right behind its request, and is dropped")
         rep.floor("C14.R5", "serve_connection_with_upgrades calls of the tunnel service", len(served), 1)
         rep.floor("C14.R5", "downcasts of the upgraded connection", len(want_types), 1)
+    # ---- R7 the fallback answers a rejected /ws request exactly as it answers the same request elsewhere
+    rep.rule("C14.R7", "the unknown-path response does not depend on what the gate did to the request: only the /ws handler touches the request's "
+                       "OnUpgrade extension (it removes it before its checks); the backend / not-found fallback never reads it - otherwise a "
+                       "rejected /ws request (extension gone) and the same request on another path (extension present) are answered differently")
+    c7 = facts.crate("rusty_penguin_lib")
+    k7 = 0
+    for b in (c7.bodies if c7 else []):
+        if "/server/" not in b.file or "::tests::" in b.path:
+            continue
+        for bi, t in b.calls():
+            c = callee(t)
+            if c and "Extensions" in c["path"] and "OnUpgrade" in c["path"]:
+                k7 += 1
+                w7 = "%s (%s)" % (loc_str(t["loc"]), b.path)
+                if "ws_handler" in b.path:
+                    rep.ok("C14.R7", "onupgrade-extension/ws_handler", w7, "the gate takes the extension", nontrivial=False)
+                else:
+                    rep.bad("C14.R7", "onupgrade-extension/%s" % b.path.split("::{")[0], w7,
+                            "`%s` consults the request's OnUpgrade extension outside the /ws handler: the gate removes that extension before it "
+                            "rejects a request, so a rejected /ws request is answered differently from the same request on an unknown path "
+                            "(the tunnel endpoint becomes distinguishable)" % c["name"])
+    if c7 is not None and any("server::service" in b.path for b in c7.bodies):
+        rep.floor("C14.R7", "uses of the OnUpgrade extension in the server", k7, 1)
     # ---- R6 the serving path does no panicking deadline arithmetic on configured durations
     rep.rule("C14.R6", "a valid upgrade is served under every timeout setting: the connection-serving code of the server does not compute a deadline "
                        "with the panicking `Instant + Duration` on a configured (non-constant) duration - `no timeout` is represented by the "
